@@ -130,11 +130,11 @@ private:
   class SlottedFunctionDef {
   public:
     std::string _answer_location;
-    WrapperType _wrapper_type;
+    WrapperType _wrapper_type = WT_none;
     int _min_version = 0;
     std::string _wrapper_name;
     std::set<FunctionRemap*> _remaps;
-    bool _keep_method;
+    bool _keep_method = false;
   };
 
   typedef std::map<std::string, SlottedFunctionDef> SlottedFunctions;
